@@ -340,6 +340,7 @@ impl Check for C14 {
                     .filter(|e| {
                         let pre = |p: &str| p.starts_with(&format!("{}/", out_root)) && before_files.contains_key(p.rsplit('/').next().unwrap_or(""));
                         !e.frozen
+                            && e.ret >= 0 // a refused call (e.g. an exclusive create that finds the name taken) touches nothing
                             && matches!(e.op, Op::OpenW | Op::Unlink | Op::Rename | Op::Link | Op::Truncate | Op::Utimens | Op::Chmod)
                             && ((e.existed && pre(&e.path)) || (e.op == Op::Rename && pre(&e.path2)))
                     })
